@@ -256,6 +256,13 @@ def singular_covariance_probe(R, rng, reps):
         R.case(('c19-singular-cov', kind, X.tobytes().hex()[:40]), True, sample={'est': 'Covariance', 'relation': 'rotation', 'kind': kind, 'd': d}, branch='singular-covariance-' + kind)
         if not (np.all(np.isfinite(M0)) and np.all(np.isfinite(M2))):
             R.violation('Covariance/rotation', f'Covariance on data with a singular covariance ({kind}) is not finite', case); continue
+        # (the library cuts eigenvalues off at λmax·d·eps, which is the size of rounding noise itself: now and then a noise
+        #  eigenvalue of the covariance survives the cut-off and is inverted to ~1e13 — in whichever orientation.  That is
+        #  rounding, not the relation under test: such instances are counted and not judged)
+        lam = np.linalg.eigvalsh(np.atleast_2d(np.cov(X, rowvar=False)))
+        clean_top = 10.0 / lam[lam > 1e-9 * lam.max()].min()
+        if max(np.linalg.eigvalsh(M0).max(), np.linalg.eigvalsh(M2).max(), 16 * np.linalg.eigvalsh(M3).max()) > clean_top:
+            R.count('singular-covariance: a noise eigenvalue survived the rank cut-off (not judged)'); continue
         if rel(Q.T.dot(M0).dot(Q), M2) > 1e-6:
             R.violation('Covariance/rotation', f'Covariance, singular covariance ({kind}): M learned on rotated data differs from QᵀMQ by {rel(Q.T.dot(M0).dot(Q), M2):.3g} (relative)', case)
         if rel(M0 / 16.0, M3) > 1e-9:
@@ -269,6 +276,9 @@ def singular_covariance_probe(R, rng, reps):
                     A0 = MMC(init='covariance', max_iter=0).fit(X[idx], yy).get_mahalanobis_matrix()
                     A2 = MMC(init='covariance', max_iter=0).fit(X.dot(Q)[idx], yy).get_mahalanobis_matrix()
                 R.case(('c19-singular-cov-mmc', X.tobytes().hex()[:40]), True, branch='singular-covariance-mmc-init')
+                lamp = np.linalg.eigvalsh(np.cov(np.unique(X[idx].reshape(-1, d), axis=0), rowvar=False))
+                if max(np.linalg.eigvalsh(A0).max(), np.linalg.eigvalsh(A2).max()) > 10.0 / lamp[lamp > 1e-9 * lamp.max()].min():
+                    R.count('singular-covariance: a noise eigenvalue survived the rank cut-off (not judged)'); continue
                 if rel(Q.T.dot(A0).dot(Q), A2) > 1e-6:
                     R.violation('MMC/rotation', f"MMC(init='covariance') on pairs whose points have a singular covariance: the initial matrix on rotated data differs from QᵀMQ by {rel(Q.T.dot(A0).dot(Q), A2):.3g}", dict(case, est='MMC', pairs=idx))
             except Exception as e:
